@@ -124,11 +124,12 @@ class Hist:
         self.uniq += 1
         self.ev.append("S:763d30%04x+r%d.%d" % (self.uniq, self.rng.choice([40, 300]), self.uniq))
 
-    def sdp_real(self, v):
-        """a parseable SDP: video PT 96 (a = H264, h = H265, o = a codec lal does not know), audio PT 97"""
+    def sdp_real(self, v, audio=""):
+        """a parseable SDP: video PT 96 (a = H264, h = H265, o = a codec lal does not know), audio PT 97
+        (AAC; audio = "g": PCMA, "p": Opus - the audio codec makes no difference to the fan-out)"""
         self.uniq += 1
         self.cur_v = v
-        self.ev.append("S:%s:u%d" % (v, self.uniq))
+        self.ev.append("S:%s%s:u%d" % (v, audio, self.uniq))
 
     def play(self, i):
         self.ev.append("Y:%d" % i)
@@ -142,7 +143,7 @@ class Hist:
             cls = "non"      # a packet of a payload type the SDP does not announce never reaches the group (BaseInSession drops it);
                              # it is generated only where it is no GOP start, and under an unknown codec every packet is one
         pt, body = rtp_body(v, cls)
-        fill = self.rng.choice([0, 0, 3, 40, 1400])
+        fill = self.rng.choice([0, 0, 3, 40, 1400]) if not cls.startswith("au:") else self.rng.choice([0, 3, 160])
         body = body + bytes([self.uniq & 255, (self.uniq >> 8) & 255]) * (1 if cls not in RTP_SHORT else 0)
         body += bytes((self.uniq * 7 + i) & 255 for i in range(fill if cls not in RTP_SHORT else 0))
         self.ev.append("R:" + hex_tok(rtp_packet(pt, self.seq & 0xFFFF, (self.uniq * 3000) & 0xFFFFFFFF, body, **kw)))
@@ -212,6 +213,10 @@ RTP_BODIES = {"a": _AVC, "h": _HEVC, "o": _AVC}
 
 
 def rtp_body(v, cls):
+    if cls.startswith("au:"):
+        # an audio packet (PT 97) whose payload starts with the given byte(s): G.711 samples, an Opus TOC byte,
+        # the high byte of a long AAC AU-headers-length ...
+        return 97, bytes.fromhex(cls[3:])
     if cls == "audio":
         return 97, bytes([0x00, 0x10, 0x0a, 0x40, 0x21, 0x10])     # AAC-hbr: AU-headers-length 16, one AU header
     if cls == "alien":
@@ -227,6 +232,80 @@ RTP_STREAMS = {
     "audio": ["audio", "audio", "audio", "audio", "audio", "audio"],
     "nokey": ["non", "audio", "non", "fu_non_start", "fu_key_mid", "stap_non", "audio", "non"],
 }
+
+
+# audio payloads whose first bytes read as a GOP start when taken for video (F-34)
+OPUS_TOCS = [0x05, 0x25, 0xE5, 0x07, 0x27, 0x08, 0x48, 0x68, 0x78, 0x7c, 0xfc,       # AVC: IDR / SPS / PPS / STAP-A / FU-A
+             0x20, 0x26, 0x2a, 0x2e, 0x40, 0x42, 0x44, 0xa6, 0xc2, 0x62, 0xe2]       # HEVC: IRAP range, VPS / SPS / PPS, FU
+AUDIO_COLLIDERS = (["au:%02x" % t for t in OPUS_TOCS]
+                   + ["au:0500", "au:0800", "au:2600", "au:4201"]                    # AAC: AU-headers-length >= 1280 bits
+                   + ["au:78000467", "au:78000441", "au:7c85", "au:7c05", "au:7c81",   # STAP-A / FU-A shaped sample runs
+                      "au:620193", "au:620113", "au:620181"])
+
+
+def gen_rtsp_audio_histories(tier, rng):
+    """waiting RTSP subscribers against AUDIO packets: the first payload byte sweeps all 256 values (G.711 samples),
+    plus Opus TOCs / AAC AU headers / sample runs shaped like STAP and FU packets; a new subscriber plays before every
+    audio packet, video inter frames in between, the GOP start only at the end"""
+    base = dict(re=1, rg=1, rm=0, fe=1, fg=1, fm=0, tg=0, tm=0, mw=0, rec=0, rw=1)
+    sweep = ["au:%02x" % b for b in range(256)]
+    for v in ("a", "h"):
+        chunks = [sweep[i:i + 32] for i in range(0, 256, 32)] + [AUDIO_COLLIDERS]
+        for ci, chunk in enumerate(chunks):
+            h = Hist(rng, base)
+            h.start(pat=False)
+            h.pub("vsh" if v != "h" else "hvsh", ts=0)
+            h.sdp_real(v, "g" if ci < 8 else "p")
+            early = h.describe()
+            h.play(early)
+            h.rtp("idr")
+            h.rtp("non")
+            for i, cls in enumerate(chunk):
+                d = h.describe()
+                h.play(d)
+                h.rtp(rng.choice(["non", "fu_non_start", "fu_non_mid", "stap_non"]))
+                h.rtp(cls)
+                if i % 3 == 0:
+                    h.rtp("audio")
+                h.rtp("non")
+            h.rtp("sps")
+            h.rtp("idr")
+            h.rtp("non")
+            yield Case(h.line(), cls="rtsp-audio-sweep-%s" % v)
+    # the same audio packets inside ordinary streams, subscribers joining at every index; also with the flag off / no codec known
+    n = 0
+    for v in ("a", "h", "o"):
+        for rw, known in ((1, True), (1, False), (0, True)):
+            seq = []
+            pool = list(AUDIO_COLLIDERS)
+            rng.shuffle(pool)
+            for i, a in enumerate(pool[:10]):
+                seq += [["non", "fu_non_mid", "stap_non", "sei"][i % 4], a]
+                if i == 6:
+                    seq += ["idr", "non"]
+            for pos in range(len(seq) + 1):
+                n += 1
+                if tier == "quick" and not (rw == 1 and known and v != "o") and n % 4:
+                    continue
+                c = dict(base)
+                c["rw"] = rw
+                h = Hist(rng, c)
+                h.start(pat=False)
+                if known:
+                    h.pub("vsh" if v != "h" else "hvsh", ts=0)
+                h.sdp_real(v, "p")
+                mid = None
+                for idx, cls in enumerate(seq):
+                    if idx == pos:
+                        mid = h.describe()
+                        h.play(mid)
+                    h.rtp(cls)
+                if pos >= len(seq):
+                    mid = h.describe()
+                    h.play(mid)
+                    h.rtp("au:65")
+                    h.rtp("non")
+                yield Case(h.line(), cls="rtsp-audio-join-%s" % v)
 
 
 def gen_rtsp_histories(tier, rng, multi_epoch=False):
@@ -314,6 +393,8 @@ def gen_rtsp_histories(tier, rng, multi_epoch=False):
                     h.sdp_real(v)        # the SDP is announced again (an RTSP pull that re-describes)
                 if v == "h" and cls == "sei" and rng.random() < 0.5:
                     cls = "cra"
+                if cls == "audio" and rng.random() < 0.5:
+                    cls = rng.choice(AUDIO_COLLIDERS + ["au:%02x" % rng.randrange(256)])
                 h.rtp(cls)
             h.stop()
             if rng.random() < 0.5:
@@ -630,8 +711,15 @@ _AVC_START = (5, 7, 8)
 _HEVC_START = tuple(range(16, 24)) + (32, 33, 34)
 
 
-def rtp_gop_start(v, body):
-    """does this video payload begin a random access point (parameter sets or an IDR/IRAP slice)?"""
+VIDEO_PT = 96      # the video track of every SDP the histories announce
+
+
+def rtp_gop_start(v, body, pt=VIDEO_PT):
+    """does this packet begin a random access point of the VIDEO track (parameter sets or an IDR/IRAP slice)?
+    Judged from the NAL unit types of RFC 6184 / RFC 7798; a packet of another track starts no GOP, whatever its bytes."""
+    v = v[:1]
+    if v in ("a", "h") and pt != VIDEO_PT:
+        return False
     if v == "a":
         t = body[0] & 31
         if t in _AVC_START:
@@ -649,15 +737,6 @@ def rtp_gop_start(v, body):
             return len(body) > 2 and bool(body[2] & 0x80) and (body[2] & 63) in _HEVC_START
         return False
     return True          # a codec the server cannot classify: nothing to wait for
-
-
-def rtp_video_gop_start(p):
-    """a GOP starts at a packet of the VIDEO track (payload type 96 in every SDP of the histories) whose payload begins a
-    random access point; the payload of an audio packet is no NAL unit, whatever its first bytes look like"""
-    v = p["sdp"][1]
-    if v in ("a", "h") and p["pt"] != 96:
-        return False
-    return rtp_gop_start(v, p["body"])
 
 
 def check_rtsp(cfg, evs, obs, clauses=("sdp", "gate", "run")):
@@ -741,14 +820,16 @@ def check_rtsp(cfg, evs, obs, clauses=("sdp", "gate", "run")):
         deliverable = [j for j in cand if pkts[j]["pt"] in (96, 97)]
         gated = bool(cfg.get("rw")) and video_known_at[play]
         if gated:
-            starts = [j for j in cand if pkts[j]["sdp"] is not None and rtp_video_gop_start(pkts[j])]
+            starts = [j for j in cand if pkts[j]["sdp"] is not None and rtp_gop_start(pkts[j]["sdp"][1], pkts[j]["body"], pkts[j]["pt"])]
             first = starts[0] if starts else None
         else:
             first = cand[0] if cand else None
         if "gate" in clauses and got:
             j0 = got[0]
-            if gated and not (pkts[j0]["sdp"] is not None and pkts[j0]["pt"] is not None and rtp_video_gop_start(pkts[j0])):
-                return ("F-32", "RTSP subscriber %s: the first packet it received (p%d) does not start a GOP although the stream has video" % (cid, j0))
+            if gated and not (pkts[j0]["sdp"] is not None and pkts[j0]["pt"] is not None and rtp_gop_start(pkts[j0]["sdp"][1], pkts[j0]["body"], pkts[j0]["pt"])):
+                what = "an audio packet" if pkts[j0]["pt"] == 97 else "no GOP start"
+                return ("F-34" if pkts[j0]["pt"] == 97 else "F-32",
+                        "RTSP subscriber %s: the first packet it received (p%d) is %s although the stream has video" % (cid, j0, what))
         if "run" in clauses:
             exp = [j for j in deliverable if first is not None and j >= first]
             if got != exp:
